@@ -59,7 +59,7 @@ def gen_pair(r):
             elif cls == "only-dst":
                 dspec.append({"p": name, "k": "l", "target": tgt})
     conflict = None
-    if r.random() < 0.15:
+    if r.random() < 0.25:
         # type conflict: a directory in one tree, a file of the same name in the other
         name = "tc"
         if r.random() < 0.5:
@@ -67,6 +67,13 @@ def gen_pair(r):
         else:
             sspec.append({"p": name, "k": "f", "data": b"file", "mt_ns": 10**9}); dspec.append({"p": name, "k": "d"})
         conflict = name
+        # (seed C15-4) the directory of the conflict is usually not empty: what is below it exists on that side only
+        if r.random() < 0.75:
+            side = sspec if sspec[-1]["k"] == "d" else dspec
+            side.append({"p": name + "/a.txt", "k": "f", "data": b"inside the conflicting directory", "mt_ns": 10**9})
+            if r.random() < 0.5:
+                side.append({"p": name + "/sub", "k": "d"})
+                side.append({"p": name + "/sub/b.txt", "k": "f", "data": b"deeper", "mt_ns": 10**9})
     return sspec, dspec, conflict
 
 
